@@ -89,6 +89,33 @@ class Mode:
     def opq(self, name):
         return self._sym(name, "opq")
 
+    def folded(self, name, expr):
+        """positive quantity name := expr that the code forms itself (zeta := a + b): recognised on
+        sight and kept as one atom (also in denominators and under roots), expanded again by the equality
+        decision; precondition expr > 0"""
+        if self.symbolic:
+            from . import alg, sym as S
+
+            v = alg.collapse(S.expand(S.lift(expr)))
+            if v.di != 1 or v.dm != alg.ctx().one or v.df:
+                raise alg.Undecided("definition must be a polynomial")
+            s = alg.ctx().define(name, v.n, fold=True)
+            return S.Sym.of_value(alg.Value({alg.ctx().mono([(s, alg.QU)]): 1}))
+        return expr
+
+    def defined(self, name, expr):
+        """positive quantity name := expr (polynomial in other symbols), kept atomic under fractional
+        powers (e.g. b := zeta - a for the WLOG parametrisations); precondition expr > 0"""
+        if self.symbolic:
+            from . import alg, sym as S
+
+            v = alg.collapse(S.expand(S.lift(expr)))
+            if v.di != 1 or v.dm != alg.ctx().one or v.df:
+                raise alg.Undecided("definition must be a polynomial")
+            s = alg.ctx().define(name, v.n)
+            return S.Sym.of_value(alg.Value({alg.ctx().mono([(s, alg.QU)]): 1}))
+        return expr
+
     def vec(self, prefix, shape, kind="real"):
         import numpy as np
 
@@ -335,9 +362,16 @@ def find_counterexample(vg, ve, used, tries=12, seed=None):
         if C.kinds[s] in ("real", "pos", "opq") and name != "pi" and s not in C.boysinfo \
                 and not any(t == s for t, _ in C.logs):
             allsyms[name] = C.kinds[s]
-    for _ in range(tries):
+    for _ in range(tries * 4):
         env = random_env(allsyms, rng)
         F = fields.MpField({}, 40)
+        if getattr(C, "defs", None):
+            se = {C.byname[k]: v for k, v in env.items() if k in C.byname}
+            try:
+                if any(alg.evalv(alg.Value(pl), se, fields.FracOnly()) <= 0 for pl in C.defs.values()):
+                    continue
+            except Exception:
+                continue
         symenv = {}
         for name, v in env.items():
             if name in C.byname:
@@ -380,6 +414,8 @@ def _symbols_in(v, depth=0):
                 out |= _symbols_in(C.expsyms[s], depth + 1)
             elif s in C.boysinfo:
                 out |= _symbols_in(C.boysinfo[s][1], depth + 1)
+            elif C.kinds[s] == "def":
+                out |= _symbols_in(alg.Value(C.defs[s]), depth + 1)
             elif C.kinds[s] == "gsq":
                 out |= _symbols_in([a for t, a in C.gsq if t == s][0], depth + 1)
             else:
